@@ -172,13 +172,15 @@ def match_finding(kf, case):
 # ------------------------------------------------------------------------------------------------
 
 
-def sweep(run, mods, wd: Path, kf, hist: Counter):
+def sweep(run, mods, wd: Path, kf, hist: Counter, only=None):
     rules, from_main = rule_functions(mods)
     examples, status = harvest(wd)
     cwd = wd / "exec"
     cwd.mkdir(exist_ok=True)
     jobs = []       # (rule, origin, source)
     for name in sorted(rules):
+        if only and not any(a in name for a in only):
+            continue
         for i, src in enumerate(examples.get(name, [])):
             jobs.append((name, f"repo-example#{i}", src))
         for i, src in enumerate(TRIGGERS.get(name, [])):
@@ -246,3 +248,34 @@ def sweep(run, mods, wd: Path, kf, hist: Counter):
     hist["sweep:not-executable"] += summary["not_executable_before"]
     return {"rules": sorted(rules), "executions": executions, "fired": len(applied), "failures": failures,
             "known": known, "known_example": known_example, "summary": summary}
+
+
+def main(argv):
+    """stand-alone run of the sweep (debugging / triage):  VERIF_REPO=... python -m harness.c02_sweep [rule-substring]"""
+    run = common.Run(PID, "quick", 0)
+    wd = common.workdir(PID + "sw")
+    mods = common.import_impl()
+    kf = common.load_findings(PID)
+    hist = Counter()
+    global TRIGGERS
+    if argv:
+        TRIGGERS = {k: v for k, v in TRIGGERS.items() if any(a in k for a in argv)}
+    res = sweep(run, mods, wd, kf, hist, only=argv or None)
+    s = res["summary"]
+    print(json.dumps({k: v for k, v in s.items() if k != "per_rule"}, indent=1))
+    for n, c in s["per_rule"].items():
+        if not argv or any(a in n for a in argv):
+            print(n, c)
+    print("known:", dict(res["known"]))
+    for c in res["failures"]:
+        print("=" * 100)
+        print("FAILURE", c["rule"], c["origin"])
+        print(c["source"])
+        print("--->")
+        print(c["output"])
+        print(json.dumps(c["result"], indent=1))
+    return 1 if res["failures"] else 0
+
+
+if __name__ == "__main__":
+    sys.exit(main(sys.argv[1:]))
